@@ -11,6 +11,7 @@ def hashTok (t : String) : Option Bytes :=
     | 'f' :: r => (bytes? (String.ofList r)).map fun b => b.headD 0 :: List.replicate 31 0
     | 'l' :: r => (bytes? (String.ofList r)).map fun b => List.replicate 31 0 ++ [b.headD 0]
     | 'm' :: r => (bytes? (String.ofList r)).map fun b => List.replicate 15 0 ++ [b.headD 0] ++ List.replicate 16 0
+    | 'n' :: r => (bytes? (String.ofList r)).map fun b => List.replicate 16 0 ++ [b.headD 0] ++ List.replicate 15 0
     | _ => none
   else bytes? t
 
